@@ -26,6 +26,7 @@ func init() {
 			{"C16.ctor-verifies", "Verify relies on GetChunk: the verifying constructors reject unreadable data and the zero id", 2, c03CtorVerifies},
 			{"C16.walk-complete", "Verify and Prune visit every file of the local store (no SkipDir)", 2, c16WalkComplete},
 			{"C16.id-parse-exact", "a file name parses as a chunk id only if it is exactly 64 hex digits (shared with C20)", 1, c20IDParseExact},
+			{"C16.compress-api", "the zstd codec is constructed without limiting options: every valid chunk a store holds can be decoded by verify (shared with C20)", 2, c20CompressAPI},
 			{"C16.remove-completes", "RemoveChunk of every back end reports success only after its delete primitive succeeded", 4, func(c *Ctx) { c.writePrimitives("C16") }},
 			{"C16.options-from-config", "every store built in cmd/desync gets its options from the config entry of its location (format, verification)", 12, func(c *Ctx) { c.storeOptionsFromConfig() }},
 			{"C16.verify", "verify removes exactly the invalid chunks, only with repair", 3, c16Verify},
